@@ -20,6 +20,7 @@
 -/
 import Umya.Lemmas.Reader
 import Umya.Thm.C09
+import Umya.Lemmas.TablesGen
 namespace Umya.Thm.C03
 open Umya.Reader Umya.Reader.Lemmas Umya.Spec.Xml Umya.XmlEsc
 
@@ -336,5 +337,15 @@ theorem C03_cell_edge_blanks_fails :
   revert this; decide
 
 end Cell
+
+
+/-- **Tie to the source (T).**  The white-space normalisation chains of reader/driver.rs as regenerated on
+    this run (`unescape_text`, `get_attribute_value`) are the model's `normEol` / `attrNorm`, and the reader's
+    error-literal table is `CellErrorType`'s. -/
+theorem C03_channels_match_source (s : List Char) :
+    Umya.Gen.applySteps Umya.Gen.unescape_text_normalise s = Umya.Xml.normEol s ∧
+    Umya.Gen.applySteps Umya.Gen.get_attribute_value_normalise s = attrNorm s ∧
+    Umya.Gen.cell_error_display.map (fun p => p.2.toList) = Umya.Reader.errorLits :=
+  ⟨Umya.Gen.gen_unescape_text s, Umya.Gen.gen_get_attribute_value s, Umya.Gen.gen_cell_errors.2.2⟩
 
 end Umya.Thm.C03
